@@ -1,21 +1,31 @@
 #!/bin/sh
 # try_refactors.sh [set]: apply each stored behaviour-preserving refactoring (refactors/<set>/r*.diff, made against
-# the commit named in refactors/<set>/BASE) to a scratch worktree and list the alarms the checks raise: all are false alarms.
+# the commit named in refactors/<set>/BASE) to a scratch worktree and list the alarms the checks raise that the
+# unpatched BASE does not raise (BASE may predate later fix: commits): all are false alarms.
 cd /verif
 export GOFLAGS=-mod=mod GOPROXY=off GOSUMDB=off GOTOOLCHAIN=local GOWORK=off
-for set in ${1:-a b}; do
+alarms() {
+  bin/cloverlint -property all -tier quick -repo "$1" -verif /verif -no-evidence 2>&1 | grep -E "^(VIOLATED|UNDECIDED|CHECKER)" | sed -E 's/^(VIOLATED|UNDECIDED) C[0-9]+: //' | sed -E 's/ at [^ ]+:[0-9]+:[0-9]+:.*//' | sort -u
+}
+for set in ${1:-a b c}; do
   base=$(cat refactors/$set/BASE)
+  W=/tmp/vref-$$-base
+  git -C /repo worktree add --detach "$W" "$base" >/dev/null 2>&1
+  alarms "$W" > /tmp/vref-$$-base.txt
+  git -C /repo worktree remove --force "$W" >/dev/null 2>&1; rm -rf "$W"
   for d in refactors/$set/r*.diff; do
     n=$set/$(basename $d .diff)
     W=/tmp/vref-$$-$(basename $d .diff)
     git -C /repo worktree add --detach "$W" "$base" >/dev/null 2>&1
     if (cd $W && git apply /verif/$d >/dev/null 2>&1) && (cd $W && go build ./... >/dev/null 2>&1); then
-      out=$(bin/cloverlint -property all -tier quick -repo "$W" -verif /verif -no-evidence 2>&1 | grep -E "^(VIOLATED|UNDECIDED|CHECKER)" | sed -E 's/^(VIOLATED|UNDECIDED) C[0-9]+: //' | sort -u)
-      [ "$base" = b392ce1 ] && out=$(echo "$out" | grep -v "^PLAN8/")
+      # compare without the function component of the key (a refactoring may rename the function a base defect is in)
+      sed -E 's#^([A-Z0-9]+)/[^/]+/#\1/*/#' /tmp/vref-$$-base.txt | sort -u > /tmp/vref-$$-basen.txt
+      out=$(alarms "$W" | while IFS= read -r l; do n=$(printf '%s\n' "$l" | sed -E 's#^([A-Z0-9]+)/[^/]+/#\1/*/#'); grep -qxF -- "$n" /tmp/vref-$$-basen.txt || printf '%s\n' "$l"; done)
       if [ -z "$out" ]; then echo "$n: clean"; else echo "$n: FALSE ALARMS"; echo "$out" | cut -c1-260 | sed 's/^/    /'; fi
     else
       echo "$n: does not apply/build (skipped)"
     fi
     git -C /repo worktree remove --force "$W" >/dev/null 2>&1; rm -rf "$W"
   done
+  rm -f /tmp/vref-$$-base.txt /tmp/vref-$$-basen.txt
 done
